@@ -215,7 +215,8 @@ def _run(res, rng, tier, driver, work):
                 "directly: exotic Unicode/NUL/quote text, ids 0/254/255, children without values); for each file "
                 "EVERY truncation length 0..len-1 and the zero-fill (thorough: also zero-filled tails) × backup "
                 "absent / intact / damaged the same way, plus main absent / intact × backup absent / intact / "
-                "truncated / empty. non-trivial = at least one of the two files is damaged")
+                "truncated / empty; the file named as an absolute path, relative to the working directory and through a "
+                "symbolic link, in rotation. non-trivial = at least one of the two files is damaged")
     if driver is not None:
         uniq = sorted(set(model_lines))
         try:
